@@ -20,10 +20,13 @@ from sedpack.io.itertools import lazy_pool as LP
 
 
 class ItemFailure(Exception):
+    """Raised by the mapped function. Like many real exception classes (UnicodeDecodeError, json.JSONDecodeError,
+    tf.errors.OpError, ...) it cannot be rebuilt from a single message string."""
 
-    def __init__(self, x: int):
-        super().__init__(f"mapped function failed on item {x}")
+    def __init__(self, x: int, detail: str):
+        super().__init__(f"mapped function failed on item {x}: {detail}")
         self.x = x
+        self.detail = detail
 
 
 class Poison:
@@ -301,7 +304,7 @@ class Installed:
 
 
 def run_pool(ctl: Controller, *, T: int, N, fails=(), abandon_after=None, rounds: int = 1,
-             jitter=None, result: dict | None = None) -> dict:
+             jitter=None, result: dict | None = None, stall=None) -> dict:
     """Body of the consumer thread: uses the real LazyPool `rounds` times.
     Returns / fills `result` with per-round outcome and yielded items."""
     res = result if result is not None else {}
@@ -314,7 +317,7 @@ def run_pool(ctl: Controller, *, T: int, N, fails=(), abandon_after=None, rounds
         if jitter is not None:
             jitter(x)
         if x in fails:
-            raise ItemFailure(x)
+            raise ItemFailure(x, "injected")
         return x
 
     pool = LP.LazyPool(T)
@@ -336,6 +339,8 @@ def run_pool(ctl: Controller, *, T: int, N, fails=(), abandon_after=None, rounds
                         raise Deadlock(None)
                     ctl.event("yield", None, abstract(y))
                     out["yielded"].append(abstract(y))
+                    if stall is not None and len(out["yielded"]) == stall[0]:
+                        time.sleep(stall[1])   # the caller is busy for a while (e.g. a training step)
                     out["max_ahead"] = max(out["max_ahead"], src.pulled - len(out["yielded"]))
                     if abandon_after is not None and len(out["yielded"]) >= abandon_after:
                         out["outcome"] = "left"
